@@ -405,48 +405,38 @@ func run(r *core.Run) {
 	d4phase("D4a_format", "the doubles nearest to 10^k (k=-323..308) and equal to 2^k (k=-1074..1023), max double, 1e21, 1e-6, 1e-7", func(x float64) bool { return centres[math.Float64bits(x)] })
 	d2(4)
 	phase("parseInt_radix", func() bool { return rn.parseIntPhase(d4) })
-	// texts derived from x (quick: from the 1-5-5 minifloat subset of D1 and the centres 10^k, 2^k)
-	phase("derived_texts_D1", func() bool {
-		step := int64(r.Pick(32, 1)) // quick: mantissa restricted to its 5 leading bits
-		ok := r.Parallel((1<<15)/step, 16, func(w int, lo, hi int64) {
-			for i := lo; i < hi; i++ {
-				h := i * step
-				x := half(uint16(h))
-				if x > 0 && !math.IsInf(x, 0) && !math.IsNaN(x) {
-					rn.derivedFor(rn.env(w), x, i)
+	// texts derived from x: from the 1-5-5 minifloat subset of D1 and the centres 10^k, 2^k (thorough: the rest in pass 2)
+	derivedD1 := func(name, which string, sel func(h int64) bool) {
+		phase(name, func() bool {
+			ok := r.Parallel(1<<15, 64, func(w int, lo, hi int64) {
+				for h := lo; h < hi; h++ {
+					x := half(uint16(h))
+					if sel(h) && x > 0 && !math.IsInf(x, 0) && !math.IsNaN(x) {
+						rn.derivedFor(rn.env(w), x, h)
+					}
 				}
+			})
+			if ok {
+				rn.setBound(name, fmt.Sprintf("%s; truncations %v, extensions %v, halfway texts on both sides", which, rn.lens(), rn.exts()))
 			}
+			return ok
 		})
-		if ok {
-			which := "all positive binary16 values"
-			if step != 1 {
-				which = "all positive binary16 values whose 5 low mantissa bits are zero (the 1-5-5 minifloat)"
-			}
-			rn.setBound("derived_texts_D1", fmt.Sprintf("%s; truncations %v, extensions %v, halfway texts on both sides", which, rn.lens(), rn.exts()))
-		}
-		return ok
-	})
-	// quick: the centres 10^k, 2^k only; thorough: the quick tier's D4 (the full thorough D4 x ~230 texts of up to
-	// 1100 digits would take most of the budget for a route that is backed by strconv)
-	dd := buildD4(d4opts{noSeeds: true})
-	if r.Thorough() {
-		dd = buildD4(quickD4)
 	}
-	phase("derived_texts_D4", func() bool {
-		ok := r.Parallel(int64(len(dd)), 16, func(w int, lo, hi int64) {
-			for i := lo; i < hi; i++ {
-				rn.derivedFor(rn.env(w), dd[i], i)
+	derivedD4 := func(name, which string, dd []float64) {
+		phase(name, func() bool {
+			ok := r.Parallel(int64(len(dd)), 16, func(w int, lo, hi int64) {
+				for i := lo; i < hi; i++ {
+					rn.derivedFor(rn.env(w), dd[i], i)
+				}
+			})
+			if ok {
+				rn.setBound(name, fmt.Sprintf("%s (%d doubles)", which, len(dd)))
 			}
+			return ok
 		})
-		if ok {
-			if r.Quick() {
-				rn.setBound("derived_texts_D4", fmt.Sprintf("the %d doubles nearest to 10^k and equal to 2^k (all k)", len(dd)))
-			} else {
-				rn.setBound("derived_texts_D4", fmt.Sprintf("the %d doubles of the quick tier's D4 (+-1 ulp of every 10^k, 2^k and of the structured decimal halfway points)", len(dd)))
-			}
-		}
-		return ok
-	})
+	}
+	derivedD1("derived_texts_D1a", "all positive binary16 values whose 5 low mantissa bits are zero (the 1-5-5 minifloat)", func(h int64) bool { return h&31 == 0 })
+	derivedD4("derived_texts_D4a", "the doubles nearest to 10^k and equal to 2^k (all k)", buildD4(d4opts{noSeeds: true}))
 
 	// ---- pass 2: large bounds
 	d1("D1b_format", "the other 63488 binary16 values (incl. NaN)", func(h int64) bool { return h&31 != 0 })
@@ -457,6 +447,18 @@ func run(r *core.Run) {
 	if r.Thorough() {
 		d2(10)
 		d2(12)
+	}
+	if r.Thorough() {
+		derivedD1("derived_texts_D1b", "all other positive binary16 values", func(h int64) bool { return h&31 != 0 })
+		// the quick tier's D4, not the thorough one: 187 k doubles x ~230 texts of up to 1100 digits would take most of
+		// the budget for routes that are backed by strconv
+		var rest []float64
+		for _, x := range buildD4(quickD4) {
+			if !centres[math.Float64bits(x)] {
+				rest = append(rest, x)
+			}
+		}
+		derivedD4("derived_texts_D4b", "the rest of the quick tier's D4 (+-1 ulp of every 10^k, 2^k and of the structured decimal halfway points)", rest)
 	}
 	phase("texts_reduced_alphabet", func() bool { return rn.texts("reduced", alphaReduced, r.Pick(6, 7), r.Pick(7, 8)) })
 
